@@ -688,6 +688,20 @@ static void solve_case_body(const CaseBlock &c, FILE *o) {
     resolvo::Vector<resolvo::SolvableId> result;
     resolvo::String error = resolvo::solve(provider, problem, result);
     std::string_view message = error;
+    // every fifth case: solve a second time into the same (now non-empty) result vector, keeping a copy of the first
+    // answer; the binding has to release what `result` held, the copy has to stay intact and both answers agree
+    if (message.empty() && !c.id.empty() && ((c.id.back() - '0') % 5) == 2) {
+        resolvo::Vector<resolvo::SolvableId> first = result;
+        TableProvider again(parse_universe(c.lines));
+        resolvo::String error2 = resolvo::solve(again, problem, result);
+        std::string_view message2 = error2;
+        bool same = message2.empty() && first == result;
+        first.clear();   // sole owner of its buffer again: must not disturb `result`
+        if (!same) {
+            fprintf(o, "result abort a second solve into the reused result vector gave a different answer\n");
+            return;
+        }
+    }
     if (provider.cache_mode && !provider.cache_intact()) {
         fprintf(o, "result abort the vectors kept by the provider no longer have their contents after solve()\n");
         return;
@@ -818,6 +832,14 @@ static void containers_case_body(const CaseBlock &c, FILE *o) {
                 const uint32_t x = must_u32(t.at(2));
                 v[h].push_back(x);
                 print_vec(o, h, v[h]);
+            } else if (op == "vspan") {
+                // mutable end() evaluated before mutable begin(): both have to refer to the same (detached) buffer
+                Vec &w = v[h];
+                uint32_t *e = w.end();
+                uint32_t *b = w.begin();
+                unsigned long long sum = 0;
+                for (uint32_t *it = b; it != e && it < b + (1u << 20); ++it) sum += *it;
+                fprintf(o, "span %td sum %llu\n", e - b, sum);
             } else if (op == "vpushmove") {
                 if (!idx(2, i)) {
                     fprintf(o, "skip index-out-of-range %s\n", line.c_str());
